@@ -113,6 +113,9 @@ Section Model.
   Variables data value : Type.
   Variable evalf : Z -> data -> value.                      (* evaluateConsumerStatus after the fetch, at a clock *)
   Variable filt : value -> value.                           (* the ShowAll = false copy *)
+  (* the ShowAll = false branch as an operation on the CACHED object: (what it leaves in the cached object, the copy
+     it hands out).  The code is [pure_op]: it copies.  A variant that builds the copy in place would not be. *)
+  Variable filt_op : value -> value * value.
   Variable lookup : Z -> name -> name -> option data.       (* storage at a time: None = nil reply *)
   Variable mk : name -> name -> key.                        (* key scheme (old or repaired) *)
   Variable split : key -> option (name * name).
@@ -123,7 +126,9 @@ Section Model.
   Definition cval : Type := (name * name * value)%type.
 
   (* TimedValue; e_res = None is a stored cacheError.  e_snap is the time of the storage fetch it came from. *)
-  Record entry := mkEntry { e_res : option cval; e_created : Z; e_snap : Z }.
+  (* e_addr: where the cached *ConsumerGroupStatus lives (index into [heap]); the cache, and every requester that was
+     handed the full view, hold this one object *)
+  Record entry := mkEntry { e_res : option cval; e_created : Z; e_snap : Z; e_addr : nat }.
 
   Definition use_cache : bool := negb fixed0 || (0 <? L).
 
@@ -137,25 +142,29 @@ Section Model.
   Inductive phase :=
   | PRead                                   (* about to enter Simple.Query *)
   | PLookup                                 (* miss: about to fetch from storage (config.Lookup) *)
-  | PStoreGood (v : cval) (s : Z)           (* evaluated a reply fetched at s; about to newTimedValue + Store *)
+  | PStoreGood (v : cval) (s : Z) (a : nat) (* evaluated a reply fetched at s into object a; about to Store *)
   | PErrLoad (s : Z)                        (* nil reply fetched at s; about to Load the current value *)
   | PErrStore (e : entry)                   (* about to Store the error value *)
-  | PReply (res : option cval) (s c r : Z)  (* Query returned res (fetched at s, created at c, valid at r) *)
+  | PReply (res : option cval) (s c r : Z) (a : nat)  (* Query returned res = object a (fetched at s, created at c, valid at r) *)
   | PDone.
 
-  Record thread := mkThread { th_c : name; th_g : name; th_async : bool; th_start : Z; th_ph : phase }.
+  Record thread := mkThread { th_c : name; th_g : name; th_async : bool; th_sa : bool; th_start : Z; th_ph : phase }.
 
   Inductive event :=
   | EvLookup (tid : nat) (t : Z) (c g : name) (x : option data)
   | EvStore (tid : nat) (t : Z)
-  | EvReply (tid : nat) (t : Z) (rc rg : name) (c g : name) (v : option value) (s cr r start : Z).
+  | EvReply (tid : nat) (t : Z) (rc rg : name) (c g : name) (v : option value) (s cr r start : Z)
+  (* what the requester of tid is handed: sa = the view it asked for, v = the status Query returned (as in EvReply),
+     dv = the object it receives -- the cached object itself (full view) or the filtered copy, read from the heap *)
+  | EvDeliver (tid : nat) (t : Z) (sa : bool) (v dv : option value).
 
   Record state := mkState {
     cache : list (key * entry);       (* newest binding first *)
     pend : list key;                  (* keys with a background refresh in flight (atomicTimedValue.pending) *)
     threads : list thread;
     trace : list event;               (* newest first *)
-    clock : Z }.
+    clock : Z;
+    heap : list value }.              (* the *ConsumerGroupStatus objects made by evaluateConsumerStatus, by address *)
 
   Fixpoint find_entry (k : key) (m : list (key * entry)) : option entry :=
     match m with
@@ -174,7 +183,7 @@ Section Model.
     end.
 
   Definition with_phase (th : thread) (ph : phase) : thread :=
-    mkThread (th_c th) (th_g th) (th_async th) (th_start th) ph.
+    mkThread (th_c th) (th_g th) (th_async th) (th_sa th) (th_start th) ph.
 
   (* the reply getConsumerStatus builds from what Query returned: an error is answered with the REQUEST's names,
      a cached status with the names stored in it *)
@@ -184,53 +193,69 @@ Section Model.
     | Some (c, g, v) => (c, g, Some v)
     end.
 
+  (* getConsumerStatus after Query returned: the full view hands out the cached object itself; the filtered view
+     runs filt_op on it *)
+  Definition deliver (h : list value) (sa : bool) (res : option cval) (a : nat) : list value * option value :=
+    match res with
+    | None => (h, None)
+    | Some (_, _, v) =>
+        let obj := nth a h v in
+        if sa then (h, Some obj)
+        else (set_nth h a (fst (filt_op obj)), Some (snd (filt_op obj)))
+    end.
+
   Definition step (st : state) (tid : nat) (t0 : Z) : state :=
     let t := Z.max (clock st) t0 in
     match nth_error (threads st) tid with
-    | None => mkState (cache st) (pend st) (threads st) (trace st) t
+    | None => mkState (cache st) (pend st) (threads st) (trace st) t (heap st)
     | Some th =>
       let k := mk (th_c th) (th_g th) in
       let upd (th' : thread) := set_nth (threads st) tid th' in
       match th_ph th with
       | PRead =>
-          let th1 := mkThread (th_c th) (th_g th) (th_async th) t in
+          let th1 := mkThread (th_c th) (th_g th) (th_async th) (th_sa th) t in
           if use_cache then
             match find_entry k (cache st) with
-            | None => mkState (cache st) (pend st) (upd (th1 PLookup)) (trace st) t
+            | None => mkState (cache st) (pend st) (upd (th1 PLookup)) (trace st) t (heap st)
             | Some e =>
-                if expired e t then mkState (cache st) (pend st) (upd (th1 PLookup)) (trace st) t
+                if expired e t then mkState (cache st) (pend st) (upd (th1 PLookup)) (trace st) t (heap st)
                 else match e_res e with
                      | Some v =>
-                         mkState (cache st) (pend st) (upd (th1 (PReply (Some v) (e_snap e) (e_created e) t))) (trace st) t
+                         mkState (cache st) (pend st)
+                                 (upd (th1 (PReply (Some v) (e_snap e) (e_created e) t (e_addr e)))) (trace st) t (heap st)
                      | None =>
                          (* a cached error is stale at once: answer it, and refresh in the background *)
-                         let ths := upd (th1 (PReply None (e_snap e) (e_created e) t)) in
-                         if is_pending k (pend st) then mkState (cache st) (pend st) ths (trace st) t
+                         let ths := upd (th1 (PReply None (e_snap e) (e_created e) t O)) in
+                         if is_pending k (pend st) then mkState (cache st) (pend st) ths (trace st) t (heap st)
                          else mkState (cache st) (k :: pend st)
-                                      (ths ++ [mkThread (th_c th) (th_g th) true t PLookup]) (trace st) t
+                                      (ths ++ [mkThread (th_c th) (th_g th) true true t PLookup]) (trace st) t (heap st)
                      end
             end
-          else mkState (cache st) (pend st) (upd (th1 PLookup)) (trace st) t
+          else mkState (cache st) (pend st) (upd (th1 PLookup)) (trace st) t (heap st)
       | PLookup =>
           match split k with
           | None => (* "bad request" cacheError, no storage fetch *)
-              mkState (cache st) (pend st) (upd (with_phase th (PErrLoad t))) (trace st) t
+              mkState (cache st) (pend st) (upd (with_phase th (PErrLoad t))) (trace st) t (heap st)
           | Some (c, g) =>
-              let x := lookup t c g in
-              let ph := match x with
-                        | None => PErrLoad t
-                        | Some d => PStoreGood (c, g, evalf t d) t
-                        end in
-              mkState (cache st) (pend st) (upd (with_phase th ph)) (EvLookup tid t c g x :: trace st) t
+              match lookup t c g with
+              | None =>
+                  mkState (cache st) (pend st) (upd (with_phase th (PErrLoad t)))
+                          (EvLookup tid t c g None :: trace st) t (heap st)
+              | Some d => (* a new status object is allocated *)
+                  mkState (cache st) (pend st)
+                          (upd (with_phase th (PStoreGood (c, g, evalf t d) t (length (heap st)))))
+                          (EvLookup tid t c g (Some d) :: trace st) t (heap st ++ [evalf t d])
+              end
           end
-      | PStoreGood v s =>
-          let ths := upd (with_phase th (PReply (Some v) s t t)) in
+      | PStoreGood v s a =>
+          let ths := upd (with_phase th (PReply (Some v) s t t a)) in
           if use_cache
-          then mkState ((k, mkEntry (Some v) t s) :: cache st) (pend st) ths (EvStore tid t :: trace st) t
-          else mkState (cache st) (pend st) ths (trace st) t
+          then mkState ((k, mkEntry (Some v) t s a) :: cache st) (pend st) ths (EvStore tid t :: trace st) t (heap st)
+          else mkState (cache st) (pend st) ths (trace st) t (heap st)
       | PErrLoad s =>
           if use_cache then
-            let fresh := mkState (cache st) (pend st) (upd (with_phase th (PErrStore (mkEntry None t s)))) (trace st) t in
+            let fresh := mkState (cache st) (pend st) (upd (with_phase th (PErrStore (mkEntry None t s O))))
+                                 (trace st) t (heap st) in
             match find_entry k (cache st) with
             | None => fresh
             | Some e =>
@@ -239,33 +264,37 @@ Section Model.
                 | Some v =>
                     if expired e t then fresh
                     else (* a good value that is still valid wins over the error *)
-                      mkState (cache st) (pend st) (upd (with_phase th (PReply (Some v) (e_snap e) (e_created e) t)))
-                              (trace st) t
+                      mkState (cache st) (pend st)
+                              (upd (with_phase th (PReply (Some v) (e_snap e) (e_created e) t (e_addr e))))
+                              (trace st) t (heap st)
                 end
             end
-          else mkState (cache st) (pend st) (upd (with_phase th (PReply None s t t))) (trace st) t
+          else mkState (cache st) (pend st) (upd (with_phase th (PReply None s t t O))) (trace st) t (heap st)
       | PErrStore e =>
           mkState ((k, e) :: cache st) (pend st)
-                  (upd (with_phase th (PReply None (e_snap e) (e_created e) (e_created e))))
-                  (EvStore tid t :: trace st) t
-      | PReply res s c r =>
+                  (upd (with_phase th (PReply None (e_snap e) (e_created e) (e_created e) O)))
+                  (EvStore tid t :: trace st) t (heap st)
+      | PReply res s c r a =>
           if th_async th
-          then mkState (cache st) (clear_pending k (pend st)) (upd (with_phase th PDone)) (trace st) t
+          then mkState (cache st) (clear_pending k (pend st)) (upd (with_phase th PDone)) (trace st) t (heap st)
           else let '(rc, rg, v) := reply_names th res in
                mkState (cache st) (pend st) (upd (with_phase th PDone))
-                       (EvReply tid t (th_c th) (th_g th) rc rg v s c r (th_start th) :: trace st) t
-      | PDone => mkState (cache st) (pend st) (threads st) (trace st) t
+                       (EvReply tid t (th_c th) (th_g th) rc rg v s c r (th_start th)
+                        :: EvDeliver tid t (th_sa th) v (snd (deliver (heap st) (th_sa th) res a)) :: trace st)
+                       t (fst (deliver (heap st) (th_sa th) res a))
+      | PDone => mkState (cache st) (pend st) (threads st) (trace st) t (heap st)
       end
     end.
 
   (* one thread per status request (mainLoop starts one goroutine per request) *)
-  Definition init (reqs : list (name * name)) : state :=
-    mkState [] [] (map (fun cg => mkThread (fst cg) (snd cg) false 0 PRead) reqs) [] 0.
+  (* a request: cluster, group, ShowAll *)
+  Definition init (reqs : list (name * name * bool)) : state :=
+    mkState [] [] (map (fun q => mkThread (fst (fst q)) (snd (fst q)) false (snd q) 0 PRead) reqs) [] 0 [].
 
   (* a schedule: which thread takes its next atomic step, and the wall clock then *)
   Definition run_from (st : state) (sched : list (nat * Z)) : state :=
     fold_left (fun st x => step st (fst x) (snd x)) sched st.
-  Definition run (reqs : list (name * name)) (sched : list (nat * Z)) : state := run_from (init reqs) sched.
+  Definition run (reqs : list (name * name * bool)) (sched : list (nat * Z)) : state := run_from (init reqs) sched.
 
   (* observables *)
   Definition view (showall : bool) (v : value) : value := if showall then v else filt v.
@@ -278,11 +307,12 @@ Section Model.
     | _ :: rest => replies_of tid rest
     end.
 
-  (* what the requester sees of a reply event, given the view it asked for *)
-  Definition delivered (showall : bool) (ev : event) : option (name * name * option value) :=
-    match ev with
-    | EvReply _ _ _ _ c g v _ _ _ _ => Some (c, g, option_map (view showall) v)
-    | _ => None
+  (* what the requesters are handed, oldest first: (request, view asked for, object received) *)
+  Fixpoint deliveries (tr : list event) : list (nat * bool * option value) :=
+    match tr with
+    | [] => []
+    | EvDeliver tid _ sa _ dv :: rest => deliveries rest ++ [(tid, sa, dv)]
+    | _ :: rest => deliveries rest
     end.
 
   (* the sequential special case: the request runs alone to its reply, then a refresh it started runs alone *)
@@ -334,6 +364,7 @@ Arguments mkEntry {value}.
 Arguments e_res {value}.
 Arguments e_created {value}.
 Arguments e_snap {value}.
+Arguments e_addr {value}.
 Arguments PRead {value}.
 Arguments PLookup {value}.
 Arguments PStoreGood {value}.
@@ -345,17 +376,23 @@ Arguments mkThread {value}.
 Arguments th_c {value}.
 Arguments th_g {value}.
 Arguments th_async {value}.
+Arguments th_sa {value}.
 Arguments th_start {value}.
 Arguments th_ph {value}.
 Arguments EvLookup {data value}.
 Arguments EvStore {data value}.
 Arguments EvReply {data value}.
+Arguments EvDeliver {data value}.
 Arguments mkState {data value}.
 Arguments cache {data value}.
 Arguments pend {data value}.
 Arguments threads {data value}.
 Arguments trace {data value}.
 Arguments clock {data value}.
+Arguments heap {data value}.
+
+(* the code's filtered view: the cached object is left alone, a copy is handed out *)
+Definition pure_op {value : Type} (filt : value -> value) (v : value) : value * value := (v, filt v).
 
 (* ---------------------------------------------------------------------------------------------- *)
 (* What the storage channel and the requesters observe of a trace (input of check_obs)              *)
